@@ -12,9 +12,9 @@ import time
 
 from . import celx
 from .celx import ct, celpy
-from .core import Ctx, run_tlc, MachineryError, printed_values
+from .core import Ctx, run_tlc, MachineryError, printed_values, REPO
 
-LIB_PREFIX = "/repo/src/celpy"
+LIB_PREFIX = REPO + "/src/celpy"
 
 
 # --------------------------------------------------------------------------------------------------------------
